@@ -691,8 +691,11 @@ def general_module(ch, feat, nfuncs=8, host_funcs=0, with_trace=False, nglobals=
         rs = None if (feat.stmts and ch.below(6) == 0) else ch.pick(feat.types)
         sigs.append((ps, rs))
     extra = []
-    if recursion:
+    if recursion == 'locals':
+        extra = selfrec_templates(ch, m, nimp + nfuncs)
+    elif recursion:
         extra = recursion_templates(ch, m, nimp + nfuncs)
+        extra += selfrec_templates(ch, m, nimp + nfuncs + len(extra))
     nall = nimp + nfuncs + len(extra)
     view = _SigView(m, nimp, sigs, extra)
     # table + element segments
@@ -798,6 +801,59 @@ def recursion_templates(ch, m, base):
                               ('if', I32, [('i32.const', 1)], [('local.get', 0), ('i32.const', 1), ('i32.sub',), ('call', od)])]))
     out.append(Func(ty2, [], [('local.get', 0), ('i32.const', 63), ('i32.and',), ('local.tee', 0), ('i32.eqz',),
                               ('if', I32, [('i32.const', 0)], [('local.get', 0), ('i32.const', 1), ('i32.sub',), ('call', ev)])]))
+    return out
+
+
+def selfrec_templates(ch, m, base):
+    """recursive functions WITH declared locals that are read at entry (a fresh activation sees zeros), made non-zero before the
+    recursive call, and a self / mutual call in every position a translator might treat specially: last instruction of the body,
+    in front of `return`, at the end of an if/else arm or a block, and not in tail position.  f(n, acc) = acc + step * (n & 31)."""
+    out = []
+    for _ in range(1 + ch.below(3)):
+        t = ch.pick((I32, I64))
+        locs = [ch.pick((I32, I64, F32, F64)) for _ in range(1 + ch.below(3))]
+        step = 1 + ch.below(5)
+        pos = ch.below(6)
+        ty = m.type_index((I32, t), (t,))
+        me = base + len(out)
+        other = me + 1 if pos == 5 else me
+
+        def entry():
+            b = []
+            for li, lt in enumerate(locs):
+                ne = [('local.get', 2 + li), ('%s.const' % lt, 0), ('%s.ne' % lt,)]
+                if t == I64:
+                    ne.append(('i64.extend_i32_u',))
+                b += [('local.get', 1)] + ne + [('%s.const' % t, 1000 * (li + 1)), ('%s.mul' % t,), ('%s.add' % t,), ('local.set', 1)]
+            return b
+
+        def dirty():
+            b = []
+            for li, lt in enumerate(locs):
+                if lt in (I32, I64):
+                    b += [('%s.const' % lt, 100 + li), ('local.set', 2 + li)]
+                else:
+                    # float immediates are bit patterns: 1.5f / 1.5 (+ li in the low significand bits)
+                    b += [('%s.const' % lt, (0x3fc00000 if lt == F32 else 0x3ff8000000000000) + li), ('local.set', 2 + li)]
+            return b
+        args = [('local.get', 0), ('i32.const', 1), ('i32.sub',), ('local.get', 1), ('%s.const' % t, step), ('%s.add' % t,)]
+
+        def fn(callee, p):
+            head = entry() + [('local.get', 0), ('i32.const', 31), ('i32.and',), ('local.tee', 0), ('i32.eqz',)]
+            if p == 2:
+                return head + [('if', t, [('local.get', 1)], dirty() + args + [('call', callee)])]
+            body = head + [('if', None, [('local.get', 1), ('return',)], [])] + dirty()
+            if p == 4:
+                return body + [('block', t, args + [('call', callee)])]
+            body += args + [('call', callee)]
+            if p == 1:
+                body.append(('return',))
+            elif p == 3:
+                body += [('%s.const' % t, 0), ('%s.add' % t,)]
+            return body
+        out.append(Func(ty, list(locs), fn(other, pos if pos != 5 else ch.below(3))))
+        if pos == 5:
+            out.append(Func(ty, list(locs), fn(me, ch.below(3))))
     return out
 
 
